@@ -98,6 +98,28 @@ func buildInlinedOverlay(repo string, known map[string]bool, maxRounds int) (map
 		}
 		return !known[relOf(fn.Pkg().Path())+"."+declName(fn)]
 	}
+	// Loops over a local table of functions are unrolled first, so that the calls they make are ordinary calls
+	// for the steps below.
+	{
+		trial := map[string][]byte{}
+		if n, err := unrollOverlay(abs, trial); err == nil && n > 0 {
+			good := true
+			for k, v := range trial {
+				fm, ferr := format.Source(v)
+				if ferr != nil {
+					good = false
+					break
+				}
+				trial[k] = fm
+			}
+			if good && typeCheckOverlay(abs, trial) == nil {
+				for k, v := range trial {
+					overlay[k] = v
+				}
+				steps = append(steps, inlineStep{Callee: fmt.Sprintf("%d loop(s) over a table of functions", n), Caller: "one block per element", Kind: "unroll"})
+			}
+		}
+	}
 	for round := 0; round < maxRounds; round++ {
 		cfg := &packages.Config{
 			Mode:    packages.NeedName | packages.NeedFiles | packages.NeedCompiledGoFiles | packages.NeedSyntax | packages.NeedTypes | packages.NeedTypesInfo | packages.NeedImports | packages.NeedDeps | packages.NeedTypesSizes,
